@@ -417,6 +417,20 @@ func TestValuesAtTheSizeLimit(t *testing.T) {
 			step("removal of the interior value", "12ab", nil)
 			step("removal of the sibling", "12ab56", nil)
 			step("insert of a key below the big value's path", "12ab3478", []byte{3})
+			// the big value on a branch with all sixteen children (the largest encoding a value of this size can be part of)
+			const hexd = "0123456789abcdef"
+			for n := 0; n < 16; n++ {
+				path := "12ab34" + string(hexd[n]) + "8"
+				if n < 15 {
+					if _, err := mpt.Insert(util.Path(path), mptkit.Val([]byte{4, byte(n)})); err != nil {
+						t.Fatalf("%s store, value of %d bytes: child %d below the big value: %v", kind, len(big), n, err)
+					}
+					content[path] = []byte{4, byte(n)}
+					continue
+				}
+				step("insert of the sixteenth key below the big value's path", path, []byte{4, byte(n)})
+			}
+			step("update of a key below the complete branch that holds the big value", "12ab3408", []byte{5})
 			step("removal of the big value", "12ab34", nil)
 			st.Close()
 			ev.Case(fmt.Sprintf("size-limit/%s/%d", kind, len(big)), true, "value-at-the-size-limit")
